@@ -289,4 +289,14 @@ func (*DataProcessor).processItem
   modifies *
   before Add callers-row-untouched: mapUnchanged(data)
   before injectGroupKeyExprs computed-keys-go-into-a-private-row: hasFuncGroupKey(dp.stream) ==> fresh($arg1)
+
+// ---------------------------------------------------------------- C14: partition keys are typed and use full precision
+func typeKey
+  props C14
+  ensures null: v == nil ==> result == "nil|"
+  ensures strings-verbatim: hasType(v, string) ==> result == "string|" + strval(v)
+  ensures ints: hasType(v, int) ==> result == "int|" + strconv.Itoa(intval(v))
+  ensures int64s: hasType(v, int64) ==> result == "int64|" + strconv.FormatInt(intval(v), 10)
+  ensures float64-at-full-precision: hasType(v, float64) ==> result == "float64|" + strconv.FormatFloat(realval(v), 103, -1, 64)
+  ensures bools: hasType(v, bool) ==> result == ite(boolval(v), "bool|true", "bool|false")
 @*/
